@@ -56,6 +56,8 @@ impl Synchronizer {
 
                             if !requests.contains_key(&parent){
                                 debug!("Requesting sync for block {}", parent);
+                                #[cfg(hotstuff_verif)]
+                                crate::verif::emit(format!("\"ev\":\"SyncRequest\",\"digest\":\"{}\",\"to\":\"{}\"", crate::verif::hex(&parent.0), crate::verif::hex(&author.0)));
                                 let now = SystemTime::now()
                                     .duration_since(UNIX_EPOCH)
                                     .expect("Failed to measure time")
@@ -75,6 +77,8 @@ impl Synchronizer {
                         Ok(block) => {
                             let _ = pending.remove(&block.digest());
                             let _ = requests.remove(block.parent());
+                            #[cfg(hotstuff_verif)]
+                            crate::verif::emit(format!("\"ev\":\"SyncResume\",\"blk\":\"{}\"", crate::verif::hex(&block.digest().0)));
                             if let Err(e) = tx_loopback.send(block).await {
                                 panic!("Failed to send message through core channel: {}", e);
                             }
@@ -90,6 +94,8 @@ impl Synchronizer {
                                 .as_millis();
                             if timestamp + (sync_retry_delay as u128) < now {
                                 debug!("Requesting sync for block {} (retry)", digest);
+                                #[cfg(hotstuff_verif)]
+                                crate::verif::emit(format!("\"ev\":\"SyncRetry\",\"digest\":\"{}\"", crate::verif::hex(&digest.0)));
                                 let addresses = committee
                                     .broadcast_addresses(&name)
                                     .into_iter()
